@@ -470,6 +470,26 @@ def run(repo, rep, tier):
     rep.ob("C05.R2", ch["node"], f"chunk payload <= {MAX_CHUNK} bytes", ok, "" if ok else f"chunk size {ch['emit']} exceeds the 64 KiB container rule (and may overflow the 3-byte length)", key="C05.R2@chunker:max")
     if ch["shape"] != "unrecognised":
         rep.ob("C05.R2", ch["node"], "chunks emitted in stream order, each compressed separately", ch["ordered"], "", key="C05.R2@chunker:order")
+    # every chunk payload is the snappy compression of its block: the reader tells stored from compressed chunks only by
+    # trying to decompress, so a block written raw is mis-read whenever its bytes happen to form a snappy stream
+    from ..symexec import subst as _subst
+    emitted = []
+    for lp_ in [n for n in body_walk(tb) if isinstance(n, (ast.While, ast.For))]:
+        env_l = {}
+        for st_ in lp_.body:
+            if isinstance(st_, ast.Assign) and len(st_.targets) == 1 and isinstance(st_.targets[0], ast.Name):
+                env_l[st_.targets[0].id] = _subst(st_.value, env_l)
+            for c_ in ast.walk(st_):
+                if isinstance(c_, ast.Call) and last_attr(c_.func) == "append" and len(c_.args) == 1 and "compress" in U(_subst(c_.args[0], env_l)) + U(lp_):
+                    emitted.append((c_, _subst(c_.args[0], env_l)))
+    for n_ in body_walk(tb):
+        if isinstance(n_, (ast.ListComp, ast.GeneratorExp)) and "compress" in U(n_.elt):
+            emitted.append((n_, n_.elt))
+    bad_e = [(c_, e_) for c_, e_ in emitted if not (isinstance(e_, ast.Call) and last_attr(e_.func) == "compress" and len(e_.args) == 1)]
+    if ch["shape"] != "unrecognised":
+        rep.ob("C05.R2", bad_e[0][0] if bad_e else (emitted[0][0] if emitted else tb), f"every chunk payload is snappy.compress(block) ({len(emitted)} emitting site(s))", bool(emitted) and not bad_e,
+               "" if emitted and not bad_e else (f"`{U(bad_e[0][1])[:90]}` can write a block uncompressed: the reader decompresses whatever parses as a snappy stream, so such a block "
+                                                   "(e.g. a final single zero byte) is read back as other bytes" if bad_e else "no emitting site found"), key="C05.R2@chunker:always-compressed")
     stream = None
     for st in tb.body:
         if isinstance(st, ast.Assign) and isinstance(st.value, ast.Call) and last_attr(st.value.func) == "join" and try_const(st.value.func.value) == b"":
@@ -651,6 +671,7 @@ def _anc(n, stop=None):
 
 
 VARIANTS = [
+    M("incompressible-block-stored-raw", "iwafile.py", "            payloads.append(snappy.compress(uncompressed[:65536]))", "            block = uncompressed[:65536]\n            compressed = snappy.compress(block)\n            payloads.append(compressed if len(compressed) < len(block) else block)", "C05.R2"),
     T("is-iwa-remaining-bytes-form", "iwafile.py", """def is_iwa_file(data):
     data_length = len(data)
     length = 0
